@@ -99,4 +99,5 @@ var xferAssumptions = []string{
 func init() {
 	register("C03", &CheckSpec{Level: "model_checking", Assumptions: xferAssumptions, Parts: []*PartSpec{xferPart("c03", "c03", 16)}})
 	register("C01", &CheckSpec{Level: "model_checking", Assumptions: xferAssumptions, Parts: []*PartSpec{xferPart("c01", "c01", 16)}})
+	register("C02", &CheckSpec{Level: "fault_enumeration", Assumptions: append([]string{"faults are injected at byte positions of the vquic streams as written by the real code; one fault per execution"}, xferAssumptions...), Parts: []*PartSpec{xferPart("c02", "c02", 16)}})
 }
